@@ -444,6 +444,7 @@ SssOk(e) ==
                    /\ rec.ret = 0 /\ rec.err = 0 /\ NonNeg(rec.key)
                    /\ BnVal(rec.key) = Interp0(x, y, rec.idx, q)                \* the function is interpolation at 0
                    /\ (Len(rec.idx) = e.k => BnVal(rec.key) = sec)              \* every qualifying subset reconstructs
+                   /\ (e.op = "sssx" /\ Len(rec.idx) > e.k => BnVal(rec.key) = sec) \* ... and so does every superset (C06_EXT)
 (* Beaver multiplication: triple relation, local openings, broadcast, product shares *)
 MtOk(e) ==
     LET q == BnVal(e.q)
@@ -488,7 +489,7 @@ CoreAccept(e) ==
       [] e.op = "ecmqv" -> EcmqvOk(e)
       [] e.op = "ecies_enc" -> EciesEncOk(e)
       [] e.op = "ecies_dec" -> EciesDecOk(e)
-      [] e.op = "sss" -> SssOk(e)
+      [] e.op \in {"sss", "sssx"} -> SssOk(e)
       [] e.op = "mt" -> MtOk(e)
       [] OTHER -> FALSE
 
